@@ -1,5 +1,6 @@
 import PynetVerif.Model.SExp
 import PynetVerif.Model.Dul
+import PynetVerif.Model.DulAdmissible
 namespace PynetVerif.Driver
 open PynetVerif.Dul PynetVerif.Fsm
 
@@ -50,6 +51,10 @@ def dulOps (op : String) (args : List SExp) : Option SExp :=
       let (_, out) := sched.foldl (fun (acc : St × List SExp) st =>
         let s' := step acc.1 st; (s', obs s' :: acc.2)) (s0, [])
       some (.list out.reverse)
+  | "dul.runok", [.sym r, .list steps] =>
+    match steps.mapM stepOfSExp with
+    | none => some (.sym "ERR:args")
+    | some sched => some (SExp.ofBool (runOk (if r == "T" then initRequestor else initAcceptor) sched))
   | _, _ => none
 
 end PynetVerif.Driver
